@@ -34,16 +34,13 @@ func (s *Semaphore) Acquire(cancel <-chan struct{}, timeout time.Duration) bool 
 
 	// await token, cancel or deadline
 	verifAwait("semaphore.acquire", s, func() bool { return verifReady(len(s.tokens) > 0, verifClosed(cancel)) })
-	switch verifPick("semaphore.acquire", len(s.tokens) > 0, verifClosed(cancel)) {
-	case 1:
-		cancel = nil
-	case 2:
-		return false
-	}
+	verifPick("semaphore.acquire", len(s.tokens) > 0, verifClosed(cancel))
 	select {
 	case <-s.tokens:
+		verifTook("semaphore.acquire", 1)
 		return true
 	case <-cancel:
+		verifTook("semaphore.acquire", 2)
 		return false
 	case <-deadline:
 		return false
